@@ -439,3 +439,149 @@ func ConstIndexNeeds(info *types.Info, body ast.Node, v types.Object) []IndexNee
 
 // Itoa is a tiny helper for messages.
 func Itoa(i int) string { return strconv.Itoa(i) }
+
+// AtomicFacts returns DominatingFacts(loc) split into conjuncts (tagged switch
+// facts are left out).
+func (c *CFG) AtomicFacts(loc Loc) []CondFact {
+	var out []CondFact
+	for _, f := range c.DominatingFacts(loc) {
+		if f.Tag != nil {
+			continue
+		}
+		for _, a := range splitConj(f.Cond, f.Holds) {
+			a.Block = f.Block
+			out = append(out, a)
+		}
+	}
+	return out
+}
+
+// NonEmptyFact reports whether fact f says that len(e) is positive: len(e) > 0,
+// len(e) != 0, len(e) >= 1, 0 < len(e) hold, or len(e) == 0, len(e) < 1 do not.
+func NonEmptyFact(info *types.Info, f CondFact, e ast.Expr) bool {
+	cmp, ok := Unparen(f.Cond).(*ast.BinaryExpr)
+	if !ok {
+		return false
+	}
+	x, y, op := cmp.X, cmp.Y, cmp.Op
+	if _, isK := ConstInt(info, x); isK { // constant on the left: mirror
+		x, y = y, x
+		switch op {
+		case token.LSS:
+			op = token.GTR
+		case token.GTR:
+			op = token.LSS
+		case token.LEQ:
+			op = token.GEQ
+		case token.GEQ:
+			op = token.LEQ
+		}
+	}
+	call, ok := Unparen(x).(*ast.CallExpr)
+	if !ok || len(call.Args) != 1 {
+		return false
+	}
+	if id, ok := call.Fun.(*ast.Ident); !ok || id.Name != "len" || !SameExpr(info, call.Args[0], e) {
+		return false
+	}
+	k, isK := ConstInt(info, y)
+	if !isK {
+		return false
+	}
+	if f.Holds {
+		return op == token.GTR && k >= 0 || op == token.NEQ && k == 0 || op == token.GEQ && k >= 1
+	}
+	return op == token.EQL && k == 0 || op == token.LSS && k <= 1 && k >= 1 || op == token.LEQ && k >= 0
+}
+
+// ShortCircuitFacts returns what the evaluation of n implies about the rest of
+// the expression it sits in: n in the right operand of `a && …` is evaluated
+// only when a holds, in the right operand of `a || …` only when a does not.
+// (go/cfg keeps a whole condition as one node, so these facts are not branch
+// facts of the graph.)
+func (c *CFG) ShortCircuitFacts(n ast.Node) []CondFact {
+	var out []CondFact
+	cur := n
+	for {
+		p := c.Parent[cur]
+		if p == nil {
+			break
+		}
+		if be, ok := p.(*ast.BinaryExpr); ok && ast.Node(be.Y) == cur {
+			switch be.Op {
+			case token.LAND:
+				out = append(out, splitConj(be.X, true)...)
+			case token.LOR:
+				out = append(out, splitConj(be.X, false)...)
+			}
+		}
+		if _, isStmt := p.(ast.Stmt); isStmt {
+			break
+		}
+		if _, isLit := p.(*ast.FuncLit); isLit {
+			break
+		}
+		cur = p
+	}
+	return out
+}
+
+// FactsFor returns the conditions whose outcome is fixed when expression n is
+// evaluated: the dominating branch facts of its location, split into conjuncts,
+// and the short-circuit facts of the expression around it.
+func (c *CFG) FactsFor(n ast.Node) ([]CondFact, bool) {
+	loc, ok := c.LocOf(n)
+	if !ok {
+		return nil, false
+	}
+	out := c.AtomicFacts(loc)
+	out = append(out, c.ShortCircuitFacts(n)...)
+	return out, true
+}
+
+// NonNilAtNode is NonNilAt at the location of expression n, with the
+// short-circuit facts of the expression around n.
+func (c *CFG) NonNilAtNode(v types.Object, n ast.Node) bool {
+	loc, ok := c.LocOf(n)
+	if !ok {
+		return false
+	}
+	if c.NonNilAt(v, loc) {
+		return true
+	}
+	for _, a := range c.ShortCircuitFacts(n) {
+		if x, notNil, ok := NilCompare(c.Info, a.Cond); ok && ObjOf(c.Info, x) == v && notNil == a.Holds {
+			return true
+		}
+	}
+	return false
+}
+
+// LenLowerBoundAt is LenLowerBound at the location of expression n, refined by
+// the short-circuit facts of the expression around n.
+func (c *CFG) LenLowerBoundAt(v types.Object, n ast.Node) (int, bool) {
+	loc, ok := c.LocOf(n)
+	if !ok {
+		return 0, false
+	}
+	lb := c.LenLowerBound(v, loc)
+	if lb >= lenTop {
+		return lb, true
+	}
+	for _, a := range c.ShortCircuitFacts(n) {
+		facts := c.lenFactsOf(v, Branch{Cond: a.Cond}, a.Holds)
+		for x := lb; x < lb+64; x++ {
+			sat := true
+			for _, f := range facts {
+				if !f.f.sat(x, f.holds) {
+					sat = false
+				}
+			}
+			if sat {
+				lb = x
+				break
+			}
+		}
+	}
+	return lb, true
+}
